@@ -18,8 +18,16 @@
    act      history: last action, its arguments and its result (hidden from exhaustive runs by VIEW)
 
    Operators that take a "wallet view" S only use S.accs / S.password / S.pref / S.disk, so the same clauses are
-   evaluated on the model state (here) and on observations of the real objects (WalletCryptTrace). *)
-EXTENDS Naturals, Sequences, FiniteSets, TLC
+   evaluated on the model state (here) and on observations of the real objects (WalletCryptTrace).
+
+   Readings (DESIGN 8).  An account without any secret (watch-only) "decrypts" under every password, and unlock() on a
+   wallet that is not locked has nothing to decrypt and simply records the password given: there is no ciphertext to
+   test a password against, the refusal clause is vacuous there (the model follows the code: W_WatchFlip).  A refused
+   unlock stops at the first account that does not decrypt; accounts before it that do fit the password stay decrypted
+   (only reachable with imported account dicts, FOREIGN).  "No plaintext on disk" is about the file WRITTEN while the
+   preference is on and a password is set; a file written earlier, while the wallet was locked without a password
+   known, may hold a plain account that was added meanwhile (W_StalePlain). *)
+EXTENDS Naturals, Sequences, FiniteSets, TLC, TLCExt
 
 CONSTANTS PW,        \* passwords
           MAXACC,    \* at most this many accounts
@@ -171,7 +179,6 @@ NoPlaintextOnDisk == (wrote /\ pref /\ password # NoPw) => ~DiskPlain(disk)
 NoPlaintextOnDiskState == (pref /\ password # NoPw) => ~DiskPlain(disk)
 \* without imported foreign accounts every ciphertext in memory is under the wallet's current password, and some single
 \* password always unlocks everything
-ForeignUsed == \E i \in DOMAIN accs : accs[i].enc /\ accs[i].seed # "none" /\ accs[i].pks # "none" /\ accs[i].seed # accs[i].pks
 CipherUnderCurrent == (~FOREIGN /\ password # NoPw) => RightFor(St, password)
 OnePasswordUnlocks == ~FOREIGN => \E p \in PW : RightFor(St, p)
 DiskOnePassword == ~FOREIGN => \E p \in PW : \A i \in DOMAIN disk.accs :
@@ -185,13 +192,24 @@ ReloadFaithful == [][act'[1] = "Reload" => (Len(accs') = Len(disk.accs) /\ \A i 
                         ToDict(accs'[i], NoPw) = disk.accs[i])]_vars
 UnpackRight == [][act'[1] = "Unpack" => (act'[3] = (act'[2] = blob.pw))]_vars
 
-\* reachability witnesses (each must be VIOLATED)
-W_WrongOnLocked == [][~(IsUnlock /\ WrongFor(St, act'[2]) /\ Cardinality(EncSB(St)) >= 2)]_vars
-W_RightOnLocked == [][~(IsUnlock /\ Locked(accs) /\ RightFor(St, act'[2]) /\ Cardinality(EncSB(St)) >= 2)]_vars
-W_EncryptedWrite == ~(wrote /\ pref /\ password # NoPw /\ \E i \in DOMAIN disk.accs : disk.accs[i].seed \in PW)
-W_StalePlain == NoPlaintextOnDiskState          \* violated: a plain account saved while locked without password, then unlock
-W_ResetPref == ~(act[1] = "Save" /\ ~pref /\ disk.exists /\ password = NoPw /\ DiskPlain(disk) /\ ops >= 3)
-W_WatchFlip == [][~(IsUnlock /\ act'[3] = FALSE /\ accs' # accs)]_vars   \* refused unlock flips a watch-only flag
-W_UnpackWrong == ~(act[1] = "Unpack" /\ act[3] = FALSE)
-W_Reloaded == ~(act[1] = "Reload" /\ Locked(accs) /\ pref)
+\* reachability witnesses: every antecedent above is reachable.  One separate run (one worker) with a state CONSTRAINT and an
+\* ACTION_CONSTRAINT that are always true and note in a register which witness was seen; the POSTCONDITION prints them.
+W_WrongOnLocked == IsUnlock /\ WrongFor(St, act'[2]) /\ Cardinality(EncSB(St)) >= 2
+W_RightOnLocked == IsUnlock /\ Locked(accs) /\ RightFor(St, act'[2]) /\ Cardinality(EncSB(St)) >= 2
+W_WatchFlip == IsUnlock /\ act'[3] = FALSE /\ accs' # accs            \* a refused unlock flips the flag of a watch-only account
+W_EncryptedWrite == wrote /\ pref /\ password # NoPw /\ \E i \in DOMAIN disk.accs : disk.accs[i].seed \in PW
+W_StalePlain == ~NoPlaintextOnDiskState     \* a plain account saved while locked without password, then unlock: stale plaintext
+W_ResetPref == act[1] = "Save" /\ ~pref /\ disk.exists /\ password = NoPw /\ DiskPlain(disk) /\ ops >= 3
+W_UnpackWrong == act[1] = "Unpack" /\ act[3] = FALSE
+W_Reloaded == act[1] = "Reload" /\ Locked(accs) /\ pref
+WitnessNames == <<"W_WrongOnLocked", "W_RightOnLocked", "W_WatchFlip", "W_EncryptedWrite", "W_StalePlain", "W_ResetPref", "W_UnpackWrong", "W_Reloaded">>
+MarkAction == /\ W_WrongOnLocked => TLCSet(1, TRUE)
+              /\ W_RightOnLocked => TLCSet(2, TRUE)
+              /\ W_WatchFlip => TLCSet(3, TRUE)
+MarkState == /\ W_EncryptedWrite => TLCSet(4, TRUE)
+             /\ W_StalePlain => TLCSet(5, TRUE)
+             /\ W_ResetPref => TLCSet(6, TRUE)
+             /\ W_UnpackWrong => TLCSet(7, TRUE)
+             /\ W_Reloaded => TLCSet(8, TRUE)
+WitReport == TLCGet("stats").diameter >= 0 /\ \A j \in DOMAIN WitnessNames : TLCGetOrDefault(j, FALSE) => PrintT(<<"WITNESS", WitnessNames[j]>>)
 =============================================================================
